@@ -4,6 +4,9 @@
  *
  * Allocation regime <amode>:
  *   0  whatever the library does (coap_pdu_init allocates min(max_size,256), growth by doubling)
+ *   2  as 1, and (UDP only) the PDU is attached to a session and its header is encoded before the
+ *      first edit, so that coap_update_token takes its "fix up the header" branch; every dump then
+ *      shows the header bytes as they are in memory (h=)
  *   1  before EVERY edit the buffer is moved into a fresh allocation of exactly
  *      max_hdr_size + used_size bytes and alloc_size := used_size, so that every edit that needs
  *      even one more byte goes through coap_pdu_check_resize -> coap_pdu_resize -> realloc and
@@ -16,6 +19,24 @@
 #include "coap3/coap_libcoap_build.h"
 #include "common/util.h"
 #include "common/dump.h"
+
+#include <malloc.h>
+
+/* Every realloc of the library (coap_pdu_resize) moves the block and poisons the old one, so that a
+ * pointer the code kept across the call reads garbage at once (linked with --wrap=coap_realloc_type). */
+void *__real_coap_realloc_type(coap_memory_tag_t type, void *p, size_t size);
+void *__wrap_coap_realloc_type(coap_memory_tag_t type, void *p, size_t size) {
+  void *n;
+  size_t old;
+  if (!p) return coap_malloc_type(type, size);
+  n = coap_malloc_type(type, size);
+  if (!n) return NULL;
+  old = malloc_usable_size(p);
+  memcpy(n, p, old < size ? old : size);
+  memset(p, 0xA5, old);
+  coap_free_type(type, p);
+  return n;
+}
 
 static coap_proto_t proto_of(const char *s) {
   if (!strcmp(s, "udp")) return COAP_PROTO_UDP;
@@ -39,6 +60,7 @@ static void exact_fit(coap_pdu_t *pdu) {
   uint8_t *nw = (uint8_t *)coap_malloc_type(COAP_PDU_BUF, need + pdu->max_hdr_size);
   if (!nw) return;
   memcpy(nw, old, need + pdu->max_hdr_size);
+  memset(old, 0xA5, malloc_usable_size(old));
   coap_free_type(COAP_PDU_BUF, old);
   pdu->token = nw + pdu->max_hdr_size;
   pdu->data = doff ? pdu->token + doff : NULL;
@@ -52,6 +74,7 @@ static coap_context_t *g_ctx;
 static coap_session_t *g_sess;
 
 static coap_proto_t g_proto;
+static int g_amode;
 
 static char *dump_str(const coap_pdu_t *pdu) {
   char *buf = NULL;
@@ -107,6 +130,16 @@ static void dump_b(FILE *o, coap_pdu_t *pdu) {
   dump_pdu(o, pdu);
   fputs("] b=", o);
   show_bytes(o, pdu->token, pdu->used_size);
+  /* regime 2: the PDU belongs to a session and its header has been written; coap_update_token then
+   * has to keep the header in step with the token length - show the header as it is in memory */
+  /* what the model takes for granted about the allocation: the used bytes lie inside it, and it
+   * never exceeds max_size */
+  if (pdu->used_size > pdu->alloc_size || (pdu->max_size && pdu->alloc_size > pdu->max_size))
+    fprintf(o, " ALLOC-INVARIANT-BROKEN(used=%zu alloc=%zu max=%zu)", pdu->used_size,
+            pdu->alloc_size, pdu->max_size);
+  fputs(" h=", o);
+  if (g_amode == 2 && pdu->hdr_size) show_bytes(o, pdu->token - pdu->hdr_size, pdu->hdr_size);
+  else fputc('-', o);
   step_reparse(o, pdu);
 }
 
@@ -155,6 +188,7 @@ static void c04(void) {
   proto = proto_of(vtok[1]);
   g_proto = proto;
   amode = atoi(vtok[2]);
+  g_amode = 0;      /* the starting dump shows no header */
   mx = (size_t)atol(vtok[3]);
   i = 5;
   if (vtok[4][0] == 'B') {
@@ -229,13 +263,18 @@ static void c04(void) {
     fputs("start=P ", stdout);
   }
   dump_b(stdout, pdu);
+  if (amode == 2 && proto == COAP_PROTO_UDP && g_sess) {
+    pdu->session = g_sess;
+    coap_pdu_encode_header(pdu, proto);
+    g_amode = 2;
+  }
   if (i < vntok && vtok[i][0] == 'E') i++;
   while (i < vntok && vtok[i][0] != 'X') {
     size_t n = 0;
     uint8_t *b = NULL;
     int r = 0;
     char k = vtok[i][0];
-    if (amode == 1) exact_fit(pdu);
+    if (amode >= 1) exact_fit(pdu);
     if (k == 'I' && i + 2 < vntok) {
       b = bytes_of_tok(vtok[i + 2], &n);
       r = coap_insert_option(pdu, (coap_option_num_t)atoi(vtok[i + 1]), n, b) != 0;
@@ -250,6 +289,14 @@ static void c04(void) {
     } else if (k == 'K' && i + 1 < vntok) {
       b = bytes_of_tok(vtok[i + 1], &n);
       r = coap_update_token(pdu, n, b) != 0;
+      i += 2;
+    } else if (k == 'A' && i + 2 < vntok) {
+      b = bytes_of_tok(vtok[i + 2], &n);
+      r = coap_add_option(pdu, (coap_option_num_t)atoi(vtok[i + 1]), n, b) != 0;
+      i += 3;
+    } else if (k == 'D' && i + 1 < vntok) {
+      b = bytes_of_tok(vtok[i + 1], &n);
+      r = coap_add_data(pdu, n, b) != 0;
       i += 2;
     } else {
       fputs(" ERROR bad edit op", stdout);
